@@ -132,6 +132,20 @@ CHECKS = {
                   'language x a text grammar x gender x precision x custom error class. One known finding (prec=0 sprint minute text).',
              note=_TB + ' Text shapes bounded (quick tier trims the longest shapes, thorough runs all); speed limits with 0.01 m/s tolerance.',
              technique='contract-based deductive verification (symbolic execution on shape-typed texts + float proxy -> LIA/LRA -> z3) + run-time contract stand-in'),
+ 'C16': dict(category='other',
+             text='Not the property as stated (interleavings are outside per-call contracts) but a SUFFICIENT frame/ownership condition, inferred '
+                  'from the AST of every function reachable from the entry points over shared module state: each write to a shared location is '
+                  'absent, a single publish of a completely built object, or inside a module-level lock region (and such containers are read '
+                  'under the lock). Rejected sites are replayed with a forced pre-emption (two threads, sys.settrace) to exhibit a wrong answer.',
+             note=_TB + ' GIL atomicity of a reference store; call graph over-approximated by name; the condition can only over-report.',
+             technique='frame (modifies-set) inference over the real functions + publish-after-complete / lock-region rule; forced-schedule replay'),
+ 'C18': dict(category='other',
+             text='No JS function body is under contract (no JS front end here): nothing about the JS code is counted as proved. Complete ground '
+                  'check: the Tyrving / QuadKids tables and the competition-type map of js/src equal the Python tables entry by entry. Bounded '
+                  'differential run: the JS functions loaded under node (imports rewritten mechanically to require) against their Python twins '
+                  '- which are under contract in C06/C07/C11 - on the C06/C11 grids incl. hand-timed marks.',
+             note=_TB + ' node 20; differential run is a bounded stand-in, labelled so.',
+             technique='complete table equality (ground) + bounded node differential against the contract-verified Python twins'),
 }
 _NYB = 'check not built yet in this build round (planned, see DESIGN.md §5); no claim is made'
-NOT_APPLICABLE = {p: _NYB for p in ['C16','C18']}
+NOT_APPLICABLE = {}
